@@ -95,6 +95,8 @@ class Spec:
             return len(a) == 1 and a[0] in V
         if op in ("re", "ce"):
             return len(a) == 2 and a[0] != a[1] and frozenset(a) in self.K
+        if op == "ci":
+            return len(a) == 2 and a[0] != a[1] and set(a) <= V and frozenset(a) not in self.K
         if op == "rs":
             return len(f) >= 1 and len(f) == len(a) and f in self.K
         if op == "cp":
@@ -127,7 +129,7 @@ class Spec:
             self.K |= set(self.faces(a))
         elif op in ("ab", "rv", "re", "rs"):
             self.K = {t for t in self.K if not f <= t}
-        elif op == "ce":
+        elif op in ("ce", "ci"):
             x, y = a
             self.K = {frozenset((t - {y}) | {x}) if y in t else t for t in self.K}
 
@@ -213,6 +215,16 @@ def random_history(rng, length, style, allow_trigger):
                 if s.valid("ab", t):
                     do("ab", t)
                     break
+    elif style == "hollow":
+        n = rng.randint(4, 7)
+        for _ in range(n):
+            do("av", [])
+        core_v = sorted(rng.sample(range(n), rng.randint(4, min(n, 6))))
+        for x in range(n):
+            for y in range(x + 1, n):
+                if (x in core_v and y in core_v) or rng.random() < 0.5:
+                    do("aw", [x, y])
+        do("ab", core_v)
     else:
         for _ in range(rng.randint(2, 6)):
             do("av", [])
@@ -220,10 +232,27 @@ def random_history(rng, length, style, allow_trigger):
     while len(ops) < length and tries < 400:
         tries += 1
         V = s.verts()
-        kind = rng.choices(["av", "ae", "aw", "as", "ab", "rv", "re", "rs", "ce", "cp"],
-                           [1.0, 3, 1.5, 3, 1, 0.7, 1.5, 2.5, 4, 0.2])[0]
+        nV = len(V)
+        if nV < 2 and s.n >= MAXSLOTS:
+            break
+        if allow_trigger and rng.random() < 0.35:
+            # aim at the recorded defect: a vertex or an edge inside a minimal non-face with >= 3 further vertices
+            big = [b for b in s.mnf() if len(b) >= 4]
+            if big:
+                b = sorted(rng.choice(big))
+                k = 1 if (len(b) < 5 or rng.random() < 0.5) else 2
+                a = rng.sample(b, k)
+                kind = "rv" if k == 1 else rng.choice(["re", "rs"])
+                if k == 1 and rng.random() < 0.3:
+                    kind = "rs"
+                if s.valid(kind, a) and s.trigger(kind, a):
+                    do(kind, a)
+                    break
+        kind = rng.choices(["av", "ae", "aw", "as", "ab", "rv", "re", "rs", "ce", "cp", "ci"],
+                           [2.0 if nV < 4 else 0.6, 3, 1.5, 3, 1.5, 0.4 if nV > 3 else 0.1, 1.2, 2.5,
+                            2.5 if nV > 3 else 0.5, 0.1, 0.2])[0]
         a = []
-        if kind in ("ae", "aw"):
+        if kind in ("ae", "aw", "ci"):
             if len(V) < 2:
                 continue
             a = rng.sample(V, 2)
@@ -301,7 +330,10 @@ def boundary_stream():
     for n in (4, 5, 6):
         out.append(("edge-in-blocker-%d" % n, complete(n) + ["ab " + " ".join(map(str, range(n))), "re 0 %d" % (n - 1)]))
     out.append(("vertex-in-two-blockers", complete(6) + ["ab 0 1 2", "ab 0 3 4 5", "rv 0"]))
-    out.append(("constructor-hollow", ["mk 4 ; 0 1 2 ; 0 1 3 ; 0 2 3 ; 1 2 3", "ce 0 1", "as 0 2 3"]))
+    out.append(("constructor-hollow", ["mk 4 ; 0 1 2 ; 0 1 3 ; 0 2 3 ; 1 2 3", "ce 0 1", "rs 0 2 3", "as 0 2 3"]))
+    # identification of two non-adjacent vertices through contract_edge
+    out.append(("identify-square", ["av"] * 4 + ["ae 0 2", "ae 1 2", "ae 1 3", "ae 0 3", "ci 0 1"]))
+    out.append(("identify-with-blocker", ["av"] * 5 + ["aw 0 2", "aw 0 3", "aw 2 3", "aw 1 2", "aw 1 3", "aw 1 4", "aw 0 4", "ab 0 2 3", "ci 0 1"]))
     out.append(("constructor-mixed", ["mk 6 ; 0 1 2 3 ; 2 3 4 ; 4 5 ; 0 5", "cp", "ce 4 5", "rs 2 3", "as 0 2 3"]))
     return out
 
@@ -335,10 +367,31 @@ def diff_fields(a, b):
     return [k for k in sorted(set(fa) | set(fb)) if fa.get(k) != fb.get(k)]
 
 
+BATCH = 40
+
+
+def batched(run, hist):
+    """several histories per process (an "H name" line starts a fresh complex); returns [(header answer, [answers])]"""
+    groups = []
+    for k in range(0, len(hist), BATCH):
+        lines = []
+        for (name, ops) in hist[k:k + BATCH]:
+            lines.append("H " + name.replace(" ", "_"))
+            lines.extend(ops)
+        groups.append(("H batch", lines))
+    answers = run(groups)
+    out = []
+    for k, (h, ans) in zip(range(0, len(hist), BATCH), answers):
+        pos = 0
+        for (name, ops) in hist[k:k + BATCH]:
+            out.append((ans[pos], ans[pos + 1:pos + 1 + len(ops)]))
+            pos += 1 + len(ops)
+    return out
+
+
 def run_histories(drv, orc, hist, betti=True):
-    groups = [("H " + name.replace(" ", "_"), ops) for (name, ops) in hist]
-    obs = core.run_grouped_parallel(drv, groups)
-    exp = run_oracle(orc, groups, betti)
+    obs = batched(lambda g: core.run_grouped_parallel(drv, g), hist)
+    exp = batched(lambda g: run_oracle(orc, g, betti), hist)
     return obs, exp
 
 
@@ -367,6 +420,11 @@ def judge(name, ops, obs, exp, res, trig):
         if "NOT-CLOSED" in spec:
             return dict(kind="spec:not-closed", what="history %s step %d (%s): the abstract complex is not closed" % (name, i, l),
                         step=i, expected=spec, observed=o)
+        if o == spec and i == len(ops) - 1:
+            fo = fields(o)
+            res.count("final-state:blockers=%s" % fo.get("nb"))
+            res.count("final-state:vertices=%s" % fo.get("nv"))
+            res.count("final-state:max-simplex-dim=%d" % (max([len(x.split(".")) for x in fo.get("R", "-").split(",") if x != "-"] + [0]) - 1))
         if o != spec:
             d = diff_fields(o, spec)
             if trig is not None and i == trig and o == model:
@@ -399,10 +457,26 @@ def judge(name, ops, obs, exp, res, trig):
     return None
 
 
-def evaluate(ctx, drv, orc, hist, res, shrink=True):
+def evaluate(ctx, drv, orc, hist, res, shrink=True, drv_assert=None):
     """hist: list of (name, ops).  Runs everything, records violations (shrunk)."""
     obs, exp = run_histories(drv, orc, hist)
     shrunk = {}
+    if drv_assert:
+        # the same histories through a build with the library's assert()s enabled (cut before the recorded defect, whose
+        # first symptom in a debug build may be an assertion): every answer must be identical to the NDEBUG build
+        cut = []
+        for (name, ops) in hist:
+            ok, trig = simulate(ops)
+            cut.append((name, ops if (ok and trig is None) else (ops[:trig] if ok else [])))
+        obs_a = batched(lambda g: core.run_grouped_parallel(drv_assert, g), cut)
+        for (name, ops), (h1, a1), (h2, a2) in zip(cut, obs, obs_a):
+            for i, l in enumerate(ops):
+                res.evaluations += 1
+                if a1[i] != a2[i]:
+                    res.violation("assert-build:%s" % l.split()[0], "history %s step %d (%s): the build with assertions answers %s"
+                                  % (name, i, l, a2[i][:120]), {"name": name, "ops": ops[:i + 1]}, expected=a1[i], observed=a2[i])
+                    break
+        res.count("histories-also-run-with-assertions", len(cut))
     for (name, ops), (ho, ao), (he, ae) in zip(hist, obs, exp):
         ok, trig = simulate(ops)
         if not ok:
@@ -453,27 +527,28 @@ def check(ctx, replay=None):
     if not getattr(ctx, "skip_proof", False):
         ctx.prove(["Extract_C17.vo"])
     drv = ctx.build_harness("c17_drv.cpp", flags=["-DNDEBUG"])
+    drv_a = ctx.build_harness("c17_drv.cpp", tag="assert", flags=[])
     orc = ctx.build_oracle("c17")
     rng = ctx.rng
     if replay:
         hist = [(replay["case"].get("name", "replay"), list(replay["case"]["ops"]))]
-        evaluate(ctx, drv, orc, hist, res, shrink=False)
+        evaluate(ctx, drv, orc, hist, res, shrink=False, drv_assert=drv_a)
     else:
         hist = load_corpus() + boundary_stream()
         res.count("corpus+boundary-histories", len(hist))
         thorough = ctx.tier == "thorough"
-        n_main = 2600 if thorough else 420
-        n_trig = 200 if thorough else 40
+        n_main = 150000 if thorough else 15000
+        n_trig = 6000 if thorough else 600
         for k in range(n_main):
             style = rng.choices(["plain", "skeleton", "mk"], [5, 4, 1])[0]
             ops = random_history(rng, rng.choice([8, 12, 16, 20, 25, 30]), style, allow_trigger=False)
             hist.append(("rand-%s-%d" % (style, k), ops))
             res.count("style:" + style)
         for k in range(n_trig):
-            ops = random_history(rng, rng.choice([12, 20, 30]), rng.choice(["plain", "skeleton"]), allow_trigger=True)
+            ops = random_history(rng, rng.choice([12, 20, 30]), rng.choice(["plain", "skeleton", "hollow", "hollow"]), allow_trigger=True)
             hist.append(("trig-%d" % k, ops))
             res.count("style:trigger-allowed")
-        evaluate(ctx, drv, orc, hist, res)
+        evaluate(ctx, drv, orc, hist, res, drv_assert=drv_a)
     res.distinct = set(tuple(ops) for (_, ops) in hist if len(ops) > 1)
     res.rule = ("one case = one history (sequence of operation lines on a fresh complex, <= 30 operations after the set-up, <= %d vertex "
                 "slots); distinct = distinct operation sequences with at least two operations; after EVERY operation the whole "
